@@ -101,6 +101,9 @@ def _load_neutron():
     from . import nsf
     nsf.init(elements)
 core.delayed_load(['neutron'], _load_neutron, isotope=True)
+# nuclear_spin is set on isotopes by the same loader; it is a group of its own
+# so that clearing it cannot remove the class-level neutron defaults.
+core.delayed_load(['nuclear_spin'], _load_neutron, element=False, isotope=True)
 
 def _load_neutron_activation():
     """
